@@ -5,6 +5,7 @@
 //! Protocol on the worker's stdout (one line each, written unbuffered):
 //!   `S <index>`   before each case
 //!   `V <json>`    a violation found by the in-process oracle
+//!   `P <json>`    partial accumulator (flushed every ≤ 2048 cases, then reset)
 //!   `D <json>`    final accumulator; the worker then exits 0
 //! Anything else, death by signal, a non-zero exit, or silence for `stall`
 //! is a crash / hang of the last announced case.
@@ -84,10 +85,26 @@ pub fn acc_from_json(v: &Value) -> Acc {
 pub fn worker_loop(start: u64, stride: u64, end: u64, mut case: impl FnMut(u64, &mut Acc)) -> ! {
     let mut acc = Acc::new();
     let mut i = start;
+    let mut since = 0u32;
+    let mut last_flush = std::time::Instant::now();
     while i < end {
         announce(i);
         case(i, &mut acc);
+        // violations leave the process at once: a later crash must not lose them
+        if !acc.viols.is_empty() {
+            for v in std::mem::take(&mut acc.viols).into_values() {
+                raw_write(&format!("V {}\n", viol_to_json(&v)));
+            }
+        }
         i += stride;
+        since += 1;
+        // flush partial results so that a later crash loses little
+        if since >= 1024 || (since >= 32 && last_flush.elapsed().as_millis() > 100) {
+            raw_write(&format!("P {}\n", acc_to_json(&acc)));
+            acc = Acc::new();
+            since = 0;
+            last_flush = std::time::Instant::now();
+        }
     }
     raw_write(&format!("D {}\n", acc_to_json(&acc)));
     std::process::exit(0);
@@ -107,7 +124,13 @@ pub struct PoolResult {
     pub acc: Acc,
     pub events: Vec<Event>,
     pub restarts: u64,
+    /// cases never run because a worker slot exceeded its death budget
+    pub abandoned: u64,
 }
+
+/// Death budget per worker slot: a crash storm must not turn a check into an hours-long run.
+pub const MAX_DEATHS_PER_SLOT: u32 = 48;
+pub const MAX_HANGS_PER_SLOT: u32 = 2;
 
 fn now_ms(t0: Instant) -> u64 {
     t0.elapsed().as_millis() as u64
@@ -117,7 +140,7 @@ fn now_ms(t0: Instant) -> u64 {
 pub fn run_pool(exe: &std::path::Path, args: &[String], n: u64, workers: usize, stall: Duration) -> PoolResult {
     let workers = workers.max(1).min(n.max(1) as usize);
     let t0 = Instant::now();
-    let result = Arc::new(Mutex::new((Acc::new(), Vec::<Event>::new(), 0u64)));
+    let result = Arc::new(Mutex::new((Acc::new(), Vec::<Event>::new(), 0u64, 0u64)));
     let progress: Vec<Arc<AtomicU64>> = (0..workers).map(|_| Arc::new(AtomicU64::new(0))).collect();
     let pids: Vec<Arc<AtomicI32>> = (0..workers).map(|_| Arc::new(AtomicI32::new(0))).collect();
     let killed: Vec<Arc<AtomicI32>> = (0..workers).map(|_| Arc::new(AtomicI32::new(0))).collect();
@@ -159,6 +182,7 @@ pub fn run_pool(exe: &std::path::Path, args: &[String], n: u64, workers: usize, 
         hs.push(std::thread::spawn(move || {
             let mut start = w as u64;
             let stride = workers as u64;
+            let (mut deaths, mut hangs) = (0u32, 0u32);
             let errpath = std::env::temp_dir().join(format!("vcheck-worker-{}-{}.err", std::process::id(), w));
             while start < n {
                 let errf = std::fs::File::create(&errpath).expect("stderr file");
@@ -177,6 +201,8 @@ pub fn run_pool(exe: &std::path::Path, args: &[String], n: u64, workers: usize, 
                 let out = child.stdout.take().unwrap();
                 let mut last: Option<u64> = None;
                 let mut finished = false;
+                let mut flushed_evals = 0u64;
+                let _ = &flushed_evals;
                 let mut protocol_err = false;
                 let mut local_v: Vec<Violation> = vec![];
                 let mut local_acc: Option<Acc> = None;
@@ -188,6 +214,12 @@ pub fn run_pool(exe: &std::path::Path, args: &[String], n: u64, workers: usize, 
                     } else if let Some(r) = line.strip_prefix("V ") {
                         if let Ok(v) = serde_json::from_str::<Value>(r) {
                             local_v.push(viol_from_json(&v));
+                        }
+                    } else if let Some(r) = line.strip_prefix("P ") {
+                        if let Ok(v) = serde_json::from_str::<Value>(r) {
+                            let a = acc_from_json(&v);
+                            flushed_evals += a.evals;
+                            result.lock().unwrap().0.merge(a);
                         }
                     } else if let Some(r) = line.strip_prefix("D ") {
                         if let Ok(v) = serde_json::from_str::<Value>(r) {
@@ -231,12 +263,20 @@ pub fn run_pool(exe: &std::path::Path, args: &[String], n: u64, workers: usize, 
                     stderr_tail: tail,
                 });
                 g.2 += 1;
-                // the partial accumulator of the dead worker is lost; count what we know
-                let ran = if idx >= start { (idx - start) / stride } else { 0 };
-                g.0.evals += ran + 1;
-                g.0.count_n("(cases whose histogram was lost with a dead worker)", ran + 1);
-                drop(g);
+                // results since the last partial flush are lost with the dead worker (≤ 2048 cases)
+                g.0.evals += 1;
+                g.0.count("(case on which a worker died)");
+                deaths += 1;
+                if was_killed {
+                    hangs += 1;
+                }
                 start = idx + stride;
+                if (deaths >= MAX_DEATHS_PER_SLOT || hangs >= MAX_HANGS_PER_SLOT) && start < n {
+                    g.3 += (n - start + stride - 1) / stride;
+                    g.0.count_n("(cases abandoned: worker death budget exhausted)", (n - start + stride - 1) / stride);
+                    break;
+                }
+                drop(g);
             }
             let _ = std::fs::remove_file(&errpath);
             done.fetch_add(1, Ordering::SeqCst);
@@ -246,6 +286,6 @@ pub fn run_pool(exe: &std::path::Path, args: &[String], n: u64, workers: usize, 
         h.join().expect("pool thread");
     }
     let _ = wd.join();
-    let (acc, events, restarts) = Arc::try_unwrap(result).ok().expect("arc").into_inner().unwrap();
-    PoolResult { acc, events, restarts }
+    let (acc, events, restarts, abandoned) = Arc::try_unwrap(result).ok().expect("arc").into_inner().unwrap();
+    PoolResult { acc, events, restarts, abandoned }
 }
